@@ -468,7 +468,7 @@ func (c06) Exec(sci interface{}, env *Env) *Violation {
 			}
 			switch c.Last {
 			case model.KAcceptIM2:
-				t := uint16(before.IR.Hi)<<8 | uint16(req.Data[0]&0xfe)
+				t := uint16(before.IR.Hi)<<8 | uint16(reqCopy.Data[0]&0xfe)
 				ok := len(rd) == 2 && ((rd[0].Addr == t && rd[1].Addr == t+1) || (rd[0].Addr == t+1 && rd[1].Addr == t))
 				if !ok {
 					return viol("acceptance-bus", "mode 2 must read exactly the two table bytes at %04x; %s", t, ctx())
